@@ -50,6 +50,11 @@ def _loop_measure(ctx, fn, w: ast.While):
     m = None
     if isinstance(w.test, ast.Compare) and isinstance(w.test.left, ast.Call) and unparse(w.test.left.func) == 'len':
         m = unparse(w.test.left.args[0])
+    else:
+        from engine.lin import to_cnf as _to_cnf
+        cl_ = _to_cnf(w.test, True, resolver(ctx, fn, inline=False))
+        if len(cl_) == 1 and len(cl_[0]) == 1 and next(iter(cl_[0]))[0] == 'truthy' and next(iter(cl_[0]))[2] is True:
+            m = next(iter(cl_[0]))[1]        # `while text:` - the same emptiness test
     if m is not None:
         shr = [n for n in walk_no_nested(w) if isinstance(n, ast.Assign) and unparse(n.targets[0]) == m and f'{m}.replace(' in unparse(n.value)
                and ", '', 1)" in unparse(n.value)]
